@@ -6,8 +6,9 @@
            proved by hand from exp 1 <= 3 and 1 + x <= exp x (no numeric
            tactic, so that the property theorems depend on the axioms of
            the standard library's real numbers only).
-   Part 4: concrete values, used as non-vacuity witnesses. *)
-From Coq Require Import Reals Lra.
+   Part 4: concrete values, used as non-vacuity witnesses.
+   Part 5: the Part 2 lemmas with rational side conditions decided in Z. *)
+From Coq Require Import Reals Lra ZArith Lia Bool.
 From RV Require Import IR.Model.
 Open Scope R_scope.
 
@@ -616,3 +617,221 @@ Proof.
   - apply clamp_id; lra.
   - apply clamp_id; lra.
 Qed.
+
+(* ====================================================================== *)
+(* Part 5: the same helper lemmas with the side conditions between        *)
+(* rational literals decided by integer arithmetic (cheaper than lra on   *)
+(* 53-bit numerators; only the Rpower premise is left to [interval])      *)
+(* ====================================================================== *)
+
+(* the shape of every emitted double: IZR n / IZR (Zpos d) *)
+Definition fr (n : Z) (d : positive) : R := IZR n / IZR (Zpos d).
+
+Definition fr_leb (a : Z) (b : positive) (c : Z) (d : positive) : bool :=
+  (a * Zpos d <=? c * Zpos b)%Z.
+Definition fr_eqb (a : Z) (b : positive) (c : Z) (d : positive) : bool :=
+  (a * Zpos d =? c * Zpos b)%Z.
+(* |x - y| <= t * y *)
+Definition fr_closeb (tn : Z) (td : positive) (xn : Z) (xd : positive) (yn : Z) (yd : positive) : bool :=
+  (Z.abs (xn * Zpos yd - yn * Zpos xd) * Zpos td <=? tn * yn * Zpos xd)%Z.
+
+Lemma IZR_pos_pos p : 0 < IZR (Zpos p).
+Proof. apply IZR_lt. reflexivity. Qed.
+
+Lemma fr_le a b c d : fr_leb a b c d = true -> fr a b <= fr c d.
+Proof.
+  unfold fr_leb, fr. intros H. apply Z.leb_le in H. apply IZR_le in H.
+  rewrite !mult_IZR in H.
+  pose proof (IZR_pos_pos b) as Hb. pose proof (IZR_pos_pos d) as Hd.
+  apply (Rmult_le_reg_r (IZR (Zpos b) * IZR (Zpos d))); [apply Rmult_lt_0_compat; assumption |].
+  replace (IZR a / IZR (Zpos b) * (IZR (Zpos b) * IZR (Zpos d)))
+    with (IZR a * IZR (Zpos d)) by (field; lra).
+  replace (IZR c / IZR (Zpos d) * (IZR (Zpos b) * IZR (Zpos d)))
+    with (IZR c * IZR (Zpos b)) by (field; lra).
+  exact H.
+Qed.
+
+Lemma fr_eq a b c d : fr_eqb a b c d = true -> fr a b = fr c d.
+Proof.
+  unfold fr_eqb. intros H. apply Z.eqb_eq in H.
+  apply Rle_antisym; apply fr_le; unfold fr_leb; apply Z.leb_le; lia.
+Qed.
+
+Lemma fr_close tn td xn xd yn yd :
+  fr_closeb tn td xn xd yn yd = true -> close (fr tn td) (fr xn xd) (fr yn yd).
+Proof.
+  unfold fr_closeb, close, fr. intros H. apply Z.leb_le in H. apply IZR_le in H.
+  rewrite !mult_IZR, abs_IZR, minus_IZR, !mult_IZR in H.
+  pose proof (IZR_pos_pos td) as Ht. pose proof (IZR_pos_pos xd) as Hx.
+  pose proof (IZR_pos_pos yd) as Hy.
+  set (T := IZR (Zpos td)) in *. set (X := IZR (Zpos xd)) in *. set (Y := IZR (Zpos yd)) in *.
+  replace (IZR xn / X - IZR yn / Y) with ((IZR xn * Y - IZR yn * X) / (X * Y)) by (field; lra).
+  unfold Rdiv at 1. rewrite Rabs_mult. rewrite (Rabs_right (/ (X * Y))).
+  2:{ apply Rle_ge. left. apply Rinv_0_lt_compat. apply Rmult_lt_0_compat; assumption. }
+  apply (Rmult_le_reg_r (X * Y * T)); [ repeat apply Rmult_lt_0_compat; assumption |].
+  replace (Rabs (IZR xn * Y - IZR yn * X) * / (X * Y) * (X * Y * T))
+    with (Rabs (IZR xn * Y - IZR yn * X) * T) by (field; lra).
+  replace (IZR tn / T * (IZR yn / Y) * (X * Y * T)) with (IZR tn * IZR yn * X) by (field; lra).
+  exact H.
+Qed.
+
+Section Frac.
+Variables c e lo hi fl : R.
+Hypothesis Hadm : admissible c e lo hi fl.
+Variable tol : R.
+Hypothesis Htol : 0 <= tol <= 1.
+Variables lon hin fln tn : Z.
+Variables lod hid fld td : positive.
+Hypothesis Elo : lo = fr lon lod.
+Hypothesis Ehi : hi = fr hin hid.
+Hypothesis Efl : fl = fr fln fld.
+Hypothesis Etol : tol = fr tn td.
+
+Local Ltac bools H :=
+  repeat (let H1 := fresh H in apply andb_prop in H; destruct H as [H H1]).
+
+Lemma q_mid vn vd xn xd :
+  (fr_leb fln fld vn vd && fr_leb lon lod xn xd && fr_leb xn xd hin hid)%bool = true ->
+  close tol (fr xn xd) (c * Rpower (fr vn vd) e) ->
+  close tol (fr xn xd) (reading c e lo hi fl (fr vn vd)).
+Proof.
+  intros B H. bools B. apply (corr_mid _ _ _ _ _ Hadm _ Htol).
+  - rewrite Efl. apply fr_le. exact B.
+  - rewrite Elo, Ehi. split; apply fr_le; assumption.
+  - exact H.
+Qed.
+
+Lemma q_hi vn vd xn xd :
+  (fr_leb fln fld vn vd && fr_eqb xn xd hin hid)%bool = true ->
+  hi * (1 - tol / 2) <= c * Rpower (fr vn vd) e ->
+  close tol (fr xn xd) (reading c e lo hi fl (fr vn vd)).
+Proof.
+  intros B H. bools B. apply (corr_hi _ _ _ _ _ Hadm _ Htol).
+  - rewrite Efl. apply fr_le. exact B.
+  - rewrite Ehi. apply fr_eq. assumption.
+  - exact H.
+Qed.
+
+Lemma q_lo vn vd xn xd :
+  (fr_leb fln fld vn vd && fr_eqb xn xd lon lod)%bool = true ->
+  c * Rpower (fr vn vd) e <= lo * (1 + tol / 2) ->
+  close tol (fr xn xd) (reading c e lo hi fl (fr vn vd)).
+Proof.
+  intros B H. bools B. apply (corr_lo _ _ _ _ _ Hadm _ Htol).
+  - rewrite Efl. apply fr_le. exact B.
+  - rewrite Elo. apply fr_eq. assumption.
+  - exact H.
+Qed.
+
+Lemma q_floor vn vd xn xd :
+  hi <= c * Rpower fl e ->
+  (fr_leb vn vd fln fld && fr_eqb xn xd hin hid)%bool = true ->
+  close tol (fr xn xd) (reading c e lo hi fl (fr vn vd)).
+Proof.
+  intros Hf B. bools B. apply (corr_floor _ _ _ _ _ Hadm _ Htol _ _ Hf).
+  - rewrite Efl. apply fr_le. exact B.
+  - rewrite Ehi. apply fr_eq. assumption.
+Qed.
+
+Lemma q_volts_mid dn dd un ud :
+  (fr_leb lon lod dn dd && fr_leb dn dd hin hid)%bool = true ->
+  close tol (fr un ud) (Rpower (fr dn dd / c) (1 / e)) ->
+  close tol (fr un ud) (volts c e lo hi (fr dn dd)).
+Proof.
+  intros B H. bools B. apply (corr_volts_mid _ _ _ _ _ Hadm _ Htol).
+  - rewrite Elo, Ehi. split; apply fr_le; assumption.
+  - exact H.
+Qed.
+
+Lemma q_volts_hi dn dd un ud :
+  fr_leb hin hid dn dd = true ->
+  close tol (fr un ud) (Rpower (hi / c) (1 / e)) ->
+  close tol (fr un ud) (volts c e lo hi (fr dn dd)).
+Proof.
+  intros B H. apply (corr_volts_hi _ _ _ _ _ Hadm _ Htol).
+  - rewrite Ehi. apply fr_le. exact B.
+  - exact H.
+Qed.
+
+Lemma q_volts_lo dn dd un ud :
+  fr_leb dn dd lon lod = true ->
+  close tol (fr un ud) (Rpower (lo / c) (1 / e)) ->
+  close tol (fr un ud) (volts c e lo hi (fr dn dd)).
+Proof.
+  intros B H. apply (corr_volts_lo _ _ _ _ _ Hadm _ Htol).
+  - rewrite Elo. apply fr_le. exact B.
+  - exact H.
+Qed.
+
+Lemma q_clamp_mid dn dd xn xd :
+  (fr_leb lon lod dn dd && fr_leb dn dd hin hid && fr_closeb tn td xn xd dn dd)%bool = true ->
+  close tol (fr xn xd) (clamp lo hi (fr dn dd)).
+Proof.
+  intros B. bools B. apply (corr_clamp_mid _ _ _ _ _ Hadm _ Htol).
+  - rewrite Elo, Ehi. split; apply fr_le; assumption.
+  - rewrite Etol. apply fr_close. assumption.
+Qed.
+
+Lemma q_clamp_hi dn dd xn xd :
+  (fr_leb hin hid dn dd && fr_closeb tn td xn xd hin hid)%bool = true ->
+  close tol (fr xn xd) (clamp lo hi (fr dn dd)).
+Proof.
+  intros B. bools B. apply (corr_clamp_hi _ _ _ _ _ Hadm _ Htol).
+  - rewrite Ehi. apply fr_le. exact B.
+  - rewrite Etol, Ehi. apply fr_close. assumption.
+Qed.
+
+Lemma q_clamp_lo dn dd xn xd :
+  (fr_leb dn dd lon lod && fr_closeb tn td xn xd lon lod)%bool = true ->
+  close tol (fr xn xd) (clamp lo hi (fr dn dd)).
+Proof.
+  intros B. bools B. apply (corr_clamp_lo _ _ _ _ _ Hadm _ Htol).
+  - rewrite Elo. apply fr_le. exact B.
+  - rewrite Etol, Elo. apply fr_close. assumption.
+Qed.
+
+End Frac.
+
+(* the literals of the three parameter sets as fractions *)
+Lemma floor_volts_fr : floor_volts = fr 1 100000.
+Proof. unfold floor_volts, fr. lra. Qed.
+Lemma ctol_fr : ctol = fr 1 1000000000000.
+Proof. unfold ctol, fr. lra. Qed.
+Lemma A02_lo_fr : A02_lo = fr 45 2.  Proof. unfold A02_lo, fr. lra. Qed.
+Lemma A02_hi_fr : A02_hi = fr 145 1. Proof. unfold A02_hi, fr. lra. Qed.
+Lemma A21_lo_fr : A21_lo = fr 10 1.  Proof. unfold A21_lo, fr. lra. Qed.
+Lemma A21_hi_fr : A21_hi = fr 80 1.  Proof. unfold A21_hi, fr. lra. Qed.
+Lemma A41_lo_fr : A41_lo = fr 9 2.   Proof. unfold A41_lo, fr. lra. Qed.
+Lemma A41_hi_fr : A41_hi = fr 35 1.  Proof. unfold A41_hi, fr. lra. Qed.
+
+(* the instances used by the generated files: A02_q_mid vn vd xn xd ... *)
+Definition A02_q_mid := q_mid _ _ _ _ _ A02_admissible _ ctol_ok _ _ _ _ _ _ A02_lo_fr A02_hi_fr floor_volts_fr.
+Definition A02_q_hi := q_hi _ _ _ _ _ A02_admissible _ ctol_ok _ _ _ _ A02_hi_fr floor_volts_fr.
+Definition A02_q_lo := q_lo _ _ _ _ _ A02_admissible _ ctol_ok _ _ _ _ A02_lo_fr floor_volts_fr.
+Definition A02_q_floor := fun vn vd xn xd => q_floor _ _ _ _ _ A02_admissible _ ctol_ok _ _ _ _ A02_hi_fr floor_volts_fr vn vd xn xd A02_floor_reads_hi.
+Definition A02_q_volts_mid := q_volts_mid _ _ _ _ _ A02_admissible _ ctol_ok _ _ _ _ A02_lo_fr A02_hi_fr.
+Definition A02_q_volts_hi := q_volts_hi _ _ _ _ _ A02_admissible _ ctol_ok _ _ A02_hi_fr.
+Definition A02_q_volts_lo := q_volts_lo _ _ _ _ _ A02_admissible _ ctol_ok _ _ A02_lo_fr.
+Definition A02_q_clamp_mid := q_clamp_mid _ _ _ _ _ A02_admissible _ ctol_ok _ _ _ _ _ _ A02_lo_fr A02_hi_fr ctol_fr.
+Definition A02_q_clamp_hi := q_clamp_hi _ _ _ _ _ A02_admissible _ ctol_ok _ _ _ _ A02_hi_fr ctol_fr.
+Definition A02_q_clamp_lo := q_clamp_lo _ _ _ _ _ A02_admissible _ ctol_ok _ _ _ _ A02_lo_fr ctol_fr.
+Definition A21_q_mid := q_mid _ _ _ _ _ A21_admissible _ ctol_ok _ _ _ _ _ _ A21_lo_fr A21_hi_fr floor_volts_fr.
+Definition A21_q_hi := q_hi _ _ _ _ _ A21_admissible _ ctol_ok _ _ _ _ A21_hi_fr floor_volts_fr.
+Definition A21_q_lo := q_lo _ _ _ _ _ A21_admissible _ ctol_ok _ _ _ _ A21_lo_fr floor_volts_fr.
+Definition A21_q_floor := fun vn vd xn xd => q_floor _ _ _ _ _ A21_admissible _ ctol_ok _ _ _ _ A21_hi_fr floor_volts_fr vn vd xn xd A21_floor_reads_hi.
+Definition A21_q_volts_mid := q_volts_mid _ _ _ _ _ A21_admissible _ ctol_ok _ _ _ _ A21_lo_fr A21_hi_fr.
+Definition A21_q_volts_hi := q_volts_hi _ _ _ _ _ A21_admissible _ ctol_ok _ _ A21_hi_fr.
+Definition A21_q_volts_lo := q_volts_lo _ _ _ _ _ A21_admissible _ ctol_ok _ _ A21_lo_fr.
+Definition A21_q_clamp_mid := q_clamp_mid _ _ _ _ _ A21_admissible _ ctol_ok _ _ _ _ _ _ A21_lo_fr A21_hi_fr ctol_fr.
+Definition A21_q_clamp_hi := q_clamp_hi _ _ _ _ _ A21_admissible _ ctol_ok _ _ _ _ A21_hi_fr ctol_fr.
+Definition A21_q_clamp_lo := q_clamp_lo _ _ _ _ _ A21_admissible _ ctol_ok _ _ _ _ A21_lo_fr ctol_fr.
+Definition A41_q_mid := q_mid _ _ _ _ _ A41_admissible _ ctol_ok _ _ _ _ _ _ A41_lo_fr A41_hi_fr floor_volts_fr.
+Definition A41_q_hi := q_hi _ _ _ _ _ A41_admissible _ ctol_ok _ _ _ _ A41_hi_fr floor_volts_fr.
+Definition A41_q_lo := q_lo _ _ _ _ _ A41_admissible _ ctol_ok _ _ _ _ A41_lo_fr floor_volts_fr.
+Definition A41_q_floor := fun vn vd xn xd => q_floor _ _ _ _ _ A41_admissible _ ctol_ok _ _ _ _ A41_hi_fr floor_volts_fr vn vd xn xd A41_floor_reads_hi.
+Definition A41_q_volts_mid := q_volts_mid _ _ _ _ _ A41_admissible _ ctol_ok _ _ _ _ A41_lo_fr A41_hi_fr.
+Definition A41_q_volts_hi := q_volts_hi _ _ _ _ _ A41_admissible _ ctol_ok _ _ A41_hi_fr.
+Definition A41_q_volts_lo := q_volts_lo _ _ _ _ _ A41_admissible _ ctol_ok _ _ A41_lo_fr.
+Definition A41_q_clamp_mid := q_clamp_mid _ _ _ _ _ A41_admissible _ ctol_ok _ _ _ _ _ _ A41_lo_fr A41_hi_fr ctol_fr.
+Definition A41_q_clamp_hi := q_clamp_hi _ _ _ _ _ A41_admissible _ ctol_ok _ _ _ _ A41_hi_fr ctol_fr.
+Definition A41_q_clamp_lo := q_clamp_lo _ _ _ _ _ A41_admissible _ ctol_ok _ _ _ _ A41_lo_fr ctol_fr.
